@@ -1,7 +1,7 @@
 (* MultiProofs.v — C12/C15/C16: DeleteMulti over a set of live offsets removes all of them and nothing else,
    and hence the Trim...Multi / Compact... helpers (find, then DeleteMulti) remove exactly what they select. *)
 From KV Require Import Base Model Helpers ListAux SearchProofs SegProofs ReaderProofs Spec SpecFacts LogInv
-     ConsumeProofs GetProofs AbsFacts PublishProofs DeleteProofs ReadsPreserve ScanProofs TrimProofs CompactProofs.
+     ConsumeProofs GetProofs AbsFacts PublishProofs DeleteProofs ReadsPreserve ScanProofs TrimProofs CompactProofs TimeProofs.
 From Coq Require Import ZifyBool ZifyNat.
 
 Section MultiProofs.
@@ -395,3 +395,75 @@ Proof.
 Qed.
 
 End TrimCount.
+
+(* CompactUpdates on a log whose times never decrease: among the messages not newer than the cut-off at most one per
+   key is left *)
+Section OnePerKey.
+Variable H : bytes -> Z.
+
+Lemma tmono_examined before : forall L lo x, tmono lo L -> In x L -> mtime x <= before -> In x (examined before L).
+Proof.
+  unfold examined. induction L as [|y L IH]; intros lo x Hm Hx Hb; [contradiction|]. cbn [take_while].
+  cbn [tmono] in Hm. destruct Hm as [Hlo Hm].
+  assert (Hy : mtime y <= before).
+  { destruct Hx as [->|Hx]; [exact Hb|]. pose proof (tmono_ge _ _ _ Hm Hx). lia. }
+  assert (Eg : go_on (newer before) y = true) by (unfold go_on, newer; lia). rewrite Eg.
+  destruct Hx as [->|Hx]; [now left|]. right. eapply IH; eassumption.
+Qed.
+
+Lemma first_with {A} (f : A -> bool) : forall b y, In y b -> f y = true ->
+  exists mid m' post, b = mid ++ m' :: post /\ f m' = true /\ forall z, In z mid -> f z = false.
+Proof.
+  induction b as [|z b IH]; intros y Hy Hf; [contradiction|]. destruct (f z) eqn:Ez.
+  - exists [], z, b. split; [reflexivity|]. split; [exact Ez|]. intros ? [].
+  - destruct Hy as [->|Hy]; [congruence|]. destruct (IH y Hy Hf) as (mid & m' & post & -> & Hm' & Hmid).
+    exists (z :: mid), m', post. split; [reflexivity|]. split; [exact Hm'|]. intros w [->|Hw]; [exact Ez|now apply Hmid].
+Qed.
+
+Lemma later_same_key_selected P a x b y :
+  P = a ++ x :: b -> In y b -> mkey y = mkey x -> In (moff x) (fst (fold_left upd_g P ([], []))).
+Proof.
+  intros HP Hy Hk. apply upd_complete.
+  destruct (first_with (has_key (mkey x)) b y Hy) as (mid & m' & post & Hb & Hm' & Hmid).
+  { unfold has_key. rewrite Hk. apply ConsumeProofs.bytes_eqb_refl. }
+  exists a, x, mid, m', post. split; [rewrite HP, Hb; reflexivity|]. split; [reflexivity|]. split.
+  - unfold has_key in Hm'. apply bytes_eqb_eq in Hm'. congruence.
+  - intros z Hz Ek. specialize (Hmid z Hz). unfold has_key in Hmid. rewrite <- Ek, ConsumeProofs.bytes_eqb_refl in Hmid. discriminate.
+Qed.
+
+Theorem compact_updates_one_per_key c st before lo :
+  Inv st -> opened st = Some c -> cro c = false -> tmono lo (live (abs st)) ->
+  exists st' del size,
+    trim_multi H (fun s => find_updates H s before) st = (st', del, size, None) /\ Inv st' /\
+    forall x y, In x (live (abs st')) -> In y (live (abs st')) -> mtime x <= before -> mtime y <= before ->
+                mkey x = mkey y -> x = y.
+Proof.
+  intros HI Hc Hro Hmono. destruct (find_updates_spec H st before HI) as (st1 & Ef & HI1 & HA1).
+  pose proof (find_updates_opened H st before st1 _ HI Ef) as Hop.
+  set (L := live (abs st)) in *. set (P := examined before L) in *.
+  destruct (upd_sound P) as [_ Hsound]. cbv zeta in Hsound. set (offs := fst (fold_left upd_g P ([], []))) in *.
+  destruct (examined_prefix before L) as (R & HLR). fold P in HLR.
+  assert (Hlive : forall o, In o offs -> exists m, In m L /\ moff m = o).
+  { intros o Ho. destruct (Hsound o Ho) as (pre & m & mid & m' & post & HP & Hm & _). exists m. split; [|exact Hm].
+    rewrite HLR, HP. apply in_or_app. left. apply in_or_app. right. now left. }
+  destruct (trim_multi_spec H c (fun s => find_updates H s before) st st1 offs HI Hc Hro Ef HI1 HA1 ltac:(congruence) Hlive)
+    as (st' & del & size & E & HI' & An & Al & Hd).
+  exists st', del, size. split; [exact E|]. split; [exact HI'|]. fold L in Al. rewrite Al.
+  assert (Hkey : forall x y a b, P = a ++ x :: b -> In y b -> mkey y = mkey x -> In x (remove_offs L offs) -> False).
+  { intros x y a b HP Hy Hk Hx. pose proof (later_same_key_selected P a x b y HP Hy Hk) as Hsel. fold offs in Hsel.
+    unfold remove_offs in Hx. apply filter_In in Hx. destruct Hx as [_ Hx]. apply zmem_in in Hsel. rewrite Hsel in Hx. discriminate. }
+  intros x y Hx Hy Hbx Hby Hk.
+  assert (HxL : In x L) by (unfold remove_offs in Hx; apply filter_In in Hx; tauto).
+  assert (HyL : In y L) by (unfold remove_offs in Hy; apply filter_In in Hy; tauto).
+  pose proof (tmono_examined before L lo x Hmono HxL Hbx) as HxP. fold P in HxP.
+  pose proof (tmono_examined before L lo y Hmono HyL Hby) as HyP. fold P in HyP.
+  destruct (in_split _ _ HxP) as (a & b & HP).
+  rewrite HP in HyP. apply in_app_or in HyP. destruct HyP as [Hya|[E'|Hyb]].
+  - (* y before x *)
+    destruct (in_split _ _ Hya) as (a1 & a2 & Ha). exfalso.
+    apply (Hkey y x a1 (a2 ++ x :: b)); [rewrite HP, Ha, <- app_assoc; reflexivity|apply in_or_app; right; now left|now symmetry|exact Hy].
+  - exact E'.
+  - exfalso. apply (Hkey x y a b HP Hyb); [now symmetry|exact Hx].
+Qed.
+
+End OnePerKey.
